@@ -13,6 +13,8 @@ MUT = "/tmp/mut"
 
 def src_of(pid, n):
     """(directory, file number) of mutant n: 1,2 = round 1 (out1/), 3,4 = round 2 (out2/), 5,6 = round 3 (out3/), 7,8 = round 4 (out/)."""
+    if n >= 9:
+        return f"{MUT}/{pid}/out", n - 8
     if n >= 7:
         d = f"{MUT}/{pid}/out4"
         return (d if os.path.exists(d) else f"{MUT}/{pid}/out"), n - 6
@@ -113,7 +115,7 @@ def store(pid, n, extra):
     json.dump(meta, open(f"{dst}/meta.json", "w"), indent=1)
 
 
-ROUND = {"2": (3, 4), "3": (5, 6), "4": (7, 8)}.get(os.environ.get("MUT_ROUND", "1"), (1, 2))
+ROUND = {"2": (3, 4), "3": (5, 6), "4": (7, 8), "5": (9, 10)}.get(os.environ.get("MUT_ROUND", "1"), (1, 2))
 
 
 def sweep(ids):
